@@ -129,6 +129,10 @@ json generate(uint64_t seed, uint64_t idx, int tier)
 	p["src"] = {{"kind", r.chance(1, 3) ? "fp" : "buf"}, {"chunks", chunks_to_json(gen_text(r, schema["opts"], tg))}};
 	p["main"] = 1;
 	p["keep"] = 1;
+	if (r.chance(1, 4)) {
+		static const int errs[] = {ERANGE, EINVAL, ENOENT, ENOMEM};
+		p["cberrno"] = errs[r.below(4)]; // every callback of this parse leaves that errno behind
+	}
 	steps.push_back(p);
 	plan["steps"] = steps;
 	plan["params"] = {{"kind", "parse"}, {"enumerate", "cb"}, {"registered", registered}};
@@ -275,6 +279,25 @@ JudgeOut judge(const json &plan)
 			out.viol.push_back(x);
 	if (!bo || base.died)
 		return out;
+	// what errno a callback leaves behind is its own business: the same parse with callbacks that leave errno alone
+	// must end alike (a callback that answers 0 has accepted the value, whatever errno says)
+	if (clean["steps"][main_step].contains("cberrno")) {
+		json quiet = clean;
+		quiet["steps"][main_step].erase("cberrno");
+		RunResult qr = execute(quiet);
+		add_exec_counters(out, qr);
+		const OpResult *qo = nullptr;
+		for (auto &x : qr.ops)
+			if (x.index == (int)main_step)
+				qo = &x;
+		out.k.add("fault.callback_leaves_errno.fired");
+		if (qo && !qr.died && (qo->ret != bo->ret || qo->dump != bo->dump)) {
+			out.viol.push_back({"callback-errno-leak", "the parse ends differently when its callbacks leave errno=" + std::to_string(clean["steps"][main_step]["cberrno"].get<int>()) + " behind: ret=" + std::to_string(bo->ret) + " " +
+									  diag_str(*bo) + " vs ret=" + std::to_string(qo->ret) + " when they leave errno alone",
+					    clean});
+			return out;
+		}
+	}
 	if (bo->ret != 0) {
 		out.discarded = true;
 		out.k.add("baseline_unusable");
